@@ -15,7 +15,8 @@ import random
 from .. import core, tlc
 
 LEVEL = "model_checking"
-SYM = {1: "a", 2: "b", 3: "z", 4: "π", 5: "€"}
+SYM0 = {1: "a", 2: "b", 3: "z", 4: "π", 5: "€"}
+SYM = SYM0
 
 
 def run(m, chunks, limit=400):
@@ -47,7 +48,10 @@ def run(m, chunks, limit=400):
 
 def _work(job):
     import cpppo
-    text, strs, res, seed = job
+    text, strs, res, seed = job[:4]
+    SYM = dict(SYM0)
+    if len(job) > 4:
+        SYM[4] = job[4]       # the two-octet symbol: U+03C0 or a Latin-1 range one (U+00E9)
     rng = random.Random(seed)
     rx = text.replace("P", SYM[4]).replace("E", SYM[5])
     out = {"text": rx, "problems": [], "runs": 0, "bytes_supported": True, "multibyte": 0}
@@ -128,7 +132,12 @@ def main(ctx):
                "rejected at its first symbol." % maxlen)
     ev.assumptions = ["expressions regex_bytes refuses at construction for the documented multi-byte restriction are counted as unsupported",
                       "bounded repetition only of non-nullable atoms"]
-    jobs = [(e["text"], strs, e["res"], ctx.seed + i) for i, e in enumerate(exprs)]
+    # the abstract two-octet symbol is instantiated as U+03C0 (pi) or as U+00E9 (e acute: inside the Latin-1 range)
+    if ctx.quick:
+        jobs = [(e["text"], strs, e["res"], ctx.seed + i, "π" if i % 2 == 0 else "é") for i, e in enumerate(exprs)]
+    else:
+        jobs = [(e["text"], strs, e["res"], ctx.seed + i, c) for i, e in enumerate(exprs) for c in ("π", "é")]
+        exprs = [e for e in exprs for _ in (0, 1)]
     results = core.pmap(_work, jobs, chunksize=2)
     unsupported = 0
     classes = {}
